@@ -208,6 +208,10 @@ func (c *conformer) run(env *core.Env) int {
 		r := cs.Req
 		rel := strings.TrimPrefix(r.Cwd, cs.Root)
 		r.Cwd = root + rel
+		r.Args = append([]string{}, r.Args...)
+		for k, a := range r.Args { // absolute paths given as arguments (--dir) must follow the relocation
+			r.Args[k] = strings.ReplaceAll(a, cs.Root, root)
+		}
 		bin := env.Prod
 		if r.RandBase >= 0 {
 			bin = env.Verif
